@@ -527,3 +527,98 @@ def seed_from_env(default=1):
         return int(os.environ.get("VERIF_SEED", default))
     except ValueError:
         return default
+
+
+# --------------------------------------------------------------------------- VM trace validation (spec/Trace_Vm.tla)
+
+def _tlc_vm_trace(path, workdir, idx, timeout):
+    """Validate one NDJSON event trace against Trace_Vm.tla.  Returns a dict: accepted, events, unmodelled,
+    flags (list of [tag, event index]), rejected_at (event index or None), invariant (name or None)."""
+    md = os.path.join(workdir, f"vmmd{idx}")
+    shutil.rmtree(md, ignore_errors=True)
+    env = dict(os.environ, TRACE=path, JAVA_TOOL_OPTIONS="-Xss1g -Xmx3g -Dtlc2.tool.queue.IStateQueue=StateDeque")
+    cmd = ["timeout", str(timeout), "tlc", "-workers", "1", "-metadir", md, "-cleanup", "-noGenerateSpecTE",
+           "-config", os.path.join(SPEC, "Trace_Vm.cfg"), os.path.join(SPEC, "Trace_Vm.tla")]
+    p = subprocess.run(cmd, env=env, cwd=SPEC, capture_output=True, text=True)
+    shutil.rmtree(md, ignore_errors=True)
+    out = p.stdout
+    res = {"path": path, "accepted": False, "events": 0, "unmodelled": 0, "flags": [], "rejected_at": None,
+           "invariant": None, "rc": p.returncode}
+    m = re.search(r'"TRACE-DONE", \[events \|-> (\d+), unmodelled \|-> (\d+), flags \|-> (\{.*?\})\]', out, re.S)
+    if m:
+        res["events"] = int(m.group(1))
+        res["unmodelled"] = int(m.group(2))
+        res["flags"] = [[t, int(i)] for t, i in re.findall(r'<<"([^"]+)", (\d+)>>', m.group(3))]
+    m2 = re.search(r'"TRACE-REJECTED at event",\s*(\d+)', out)
+    if m2:
+        res["rejected_at"] = int(m2.group(1))
+    m3 = re.search(r"Invariant (\w+) is violated", out)
+    if m3 and m3.group(1) != "Report":
+        res["invariant"] = m3.group(1)
+        m4 = re.findall(r"/\\ l = (\d+)", out)
+        if m4:
+            res["rejected_at"] = int(m4[-1])
+    if p.returncode == 124:
+        res["timeout"] = True
+    elif "TRACE-DONE" in out and not m2 and not res["invariant"]:
+        res["accepted"] = True
+    elif not m2 and not res["invariant"]:
+        res["tool_error"] = out[-1500:]
+    return res
+
+
+def vm_trace_validate(cases, workdir, name, cap=3000, tlc_jobs=8, timeout=900, env_extra=None):
+    """Record VM-level event traces of the cases on the real engine (JIT off: the dispatch loop is the
+    subject) and validate them against spec/Trace_Vm.tla.  Returns (summary dict, list of problems);
+    a problem = {kind: rejected|flag|invariant, tag, case_id, event, file, line}."""
+    from concurrent.futures import ThreadPoolExecutor
+    tdir = os.path.join(workdir, f"vmtrace-{name}")
+    shutil.rmtree(tdir, ignore_errors=True)
+    os.makedirs(tdir)
+    env = {"STEEL_JIT": "false", "VERIF_VMTRACE": tdir + "/", "VERIF_VMTRACE_CAP": str(cap)}
+    if env_extra:
+        env.update(env_extra)
+    verdicts = replay(cases, workdir, env_extra=env, jobs=12, timeout_ms=30000, name=f"vmrec.{name}")
+    files = sorted(os.path.join(tdir, f) for f in os.listdir(tdir) if f.endswith(".ndjson"))
+    t0 = time.time()
+    with ThreadPoolExecutor(max_workers=tlc_jobs) as ex:
+        results = list(ex.map(lambda a: _tlc_vm_trace(a[1], workdir, f"{name}{a[0]}", timeout), enumerate(files)))
+    problems = []
+    summary = {"traces": 0, "events": 0, "unmodelled": 0, "accepted_files": 0, "files": len(files), "cases_recorded": 0}
+
+    def case_of(path, evno):
+        cid, n = None, 0
+        with open(path) as f:
+            for i, line in enumerate(f, 1):
+                if i > evno:
+                    break
+                if line.startswith('{"id"') or '"k":"case"' in line:
+                    try:
+                        o = json.loads(line)
+                        if o.get("k") == "case":
+                            cid = o["id"]
+                    except Exception:
+                        pass
+        return cid
+
+    for res in results:
+        with open(res["path"]) as f:
+            ncases = sum(1 for line in f if '"k":"case"' in line)
+        summary["cases_recorded"] += ncases
+        if res.get("tool_error") or res.get("timeout"):
+            raise ToolError(f"Trace_Vm.tla on {res['path']}: " + (res.get("tool_error") or "timeout"))
+        if res["accepted"]:
+            summary["accepted_files"] += 1
+            summary["traces"] += ncases
+            summary["events"] += res["events"]
+            summary["unmodelled"] += res["unmodelled"]
+            for tag, ev in res["flags"]:
+                problems.append({"kind": "flag", "tag": tag, "event": ev, "file": res["path"], "case_id": case_of(res["path"], ev)})
+        else:
+            ev = res["rejected_at"] or 0
+            problems.append({"kind": "invariant" if res["invariant"] else "rejected",
+                             "tag": res["invariant"] or "spec-drift: the event is not a step of Vm.tla",
+                             "event": ev, "file": res["path"], "case_id": case_of(res["path"], ev)})
+    log(f"[vmtrace] {name}: {summary['files']} trace files, {summary['cases_recorded']} cases, {summary['events']} events "
+        f"validated in {time.time()-t0:.1f}s, unmodelled {summary['unmodelled']}, problems {len(problems)}")
+    return summary, problems, verdicts
